@@ -110,7 +110,8 @@ theorem onAppendEntries_pubOK (n : Node) (t l : Nat) (h : PubOK n) : PubOK (onAp
   · by_cases hc : n.term ≥ t
     · simp only [hc, if_true]; exact h
     · simp only [hc, if_false]
-      exact followerOnAE_pubOK _ t l (becomeFollower_pubOK _ (some l) h.ok) (by rw [becomeFollower_role]; simp)
+      exact followerOnAE_pubOK _ t l (becomeFollower_pubOK _ (some l) (okPubs_mono h.ok (by simp; omega)))
+        (by rw [becomeFollower_role]; simp)
 
 theorem becomeCandidate_pubOK (n : Node) (h : PubOK n) : PubOK (becomeCandidate n) := by
   unfold becomeCandidate
@@ -146,8 +147,8 @@ theorem noopCommitted_pubOK (n : Node) (t : Nat) (h : PubOK n) (hr : n.role = .l
   unfold noopCommitted
   exact ⟨notify_okPubs n (some n.id) t h.ok (fun _ _ => ht), fun hl t' ht' => by simp at hl ht' ⊢; exact h.noop hl t' ht'⟩
 
-/-- every step keeps `PubOK` of every node (no crash, no learner restart) -/
-theorem pubOK_step (c : Cluster) (hd : DInv c) (l : Label) (hs : NoReset c l) (q : Nat)
+/-- every step keeps `PubOK` of every node -/
+theorem pubOK_step (c : Cluster) (hd : DInv c) (l : Label) (q : Nat)
     (h : PubOK (c.proc q).node) : PubOK ((step c l).proc q).node := by
   have hn := step_node c l q
   unfold NodeStepL at hn
@@ -179,11 +180,10 @@ theorem pubOK_step (c : Cluster) (hd : DInv c) (l : Label) (hs : NoReset c l) (q
       obtain ⟨hq, hup, ho⟩ := hn
       rw [ho]
       subst hq
-      have hle := bootNode_term_le (c.proc q) (hd q hup) hs
+      have hle := bootNode_term_le (c.proc q) (hd q hup)
       refine ⟨okPubs_mono h.ok ?_, fun hl => ?_⟩
       · simpa [bootNode] using hle
-      · have hsl : (c.proc q).startLearner = false := hs
-        simp [bootNode, hsl] at hl
+      · cases hsl : (c.proc q).startLearner <;> simp [bootNode, hsl] at hl
 
 /-- newest-first bounded/ordered pubs, read chronologically, have non-decreasing terms -/
 theorem pairwise_of_okPubs {b : Nat} {ps : List Pub} (h : okPubs b ps) :
@@ -259,7 +259,8 @@ theorem becomeFollower_pubsSub (isL : Nat → Nat → Prop) (n : Node) (lid : Op
   unfold becomeFollower
   split
   · exact PubsSub.refl isL n
-  · exact PubsSub.trans (PubsSub.of_eq (n' := { n with role := .follower, vf := none, noopTerm := none }) rfl)
+  · exact PubsSub.trans
+      (PubsSub.of_eq (n' := { n with role := .follower, vf := keepCurrentVote n.term n.vf, noopTerm := none }) rfl)
       (notify_pubsSub isL _ lid n.term h)
 
 theorem onVoteReq_pubsSub (isL : Nat → Nat → Prop) (n : Node) (r : VoteReq) : PubsSub isL n (onVoteReq n r).1 := by
@@ -294,9 +295,10 @@ theorem followerOnAE_pubsSub (isL : Nat → Nat → Prop) (n : Node) (t l : Nat)
     · exact PubsSub.trans (PubsSub.of_eq (n' := { n with vf := some ⟨l, t, true⟩, leader := l, term := t }) rfl)
         (notify_pubsSub isL _ (some l) t (fun l0 hh => by cases hh; exact hL))
 
-/-- AppendEntries: truthful unless it hits a leader with a higher term (F28) -/
-theorem onAppendEntries_pubsSub (isL : Nat → Nat → Prop) (n : Node) (t l : Nat) (hL : isL l t)
-    (hno : ¬ (n.role = .leader ∧ n.term < t)) : PubsSub isL n (onAppendEntries n t l).1 := by
+/-- AppendEntries of a recorded leader only publishes that leader (also when it deposes a leader: since fix
+    05b4801 the term is adopted before `BecomeFollower(Some(leader))`) -/
+theorem onAppendEntries_pubsSub (isL : Nat → Nat → Prop) (n : Node) (t l : Nat) (hL : isL l t) :
+    PubsSub isL n (onAppendEntries n t l).1 := by
   unfold onAppendEntries
   split
   · exact followerOnAE_pubsSub isL n t l hL
@@ -308,10 +310,13 @@ theorem onAppendEntries_pubsSub (isL : Nat → Nat → Prop) (n : Node) (t l : N
           (becomeFollower_pubsSub isL _ none (fun _ hh => by cases hh)))
         (followerOnAE_pubsSub isL _ t l hL)
     · simp only [hc, if_false]; exact PubsSub.refl isL n
-  · rename_i hr
-    by_cases hc : n.term ≥ t
+  · by_cases hc : n.term ≥ t
     · simp only [hc, if_true]; exact PubsSub.refl isL n
-    · exact absurd ⟨hr, by omega⟩ hno
+    · simp only [hc, if_false]
+      exact PubsSub.trans
+        (PubsSub.trans (PubsSub.of_eq (n' := { n with term := t }) rfl)
+          (becomeFollower_pubsSub isL _ (some l) (fun l0 hh => by cases hh; exact hL)))
+        (followerOnAE_pubsSub isL _ t l hL)
 
 theorem finishElection_pubsSub (isL : Nat → Nat → Prop) (n : Node) (o : Outcome) : PubsSub isL n (finishElection n o) := by
   have hl : PubsSub isL n (becomeLeader n) := by
@@ -329,12 +334,6 @@ theorem finishElection_pubsSub (isL : Nat → Nat → Prop) (n : Node) (o : Outc
 
 /-- published values of all nodes are justified by recorded leaders -/
 def TInv (c : Cluster) : Prop := ∀ p l t, some (l, t) ∈ (c.proc p).node.pubs → c.isL l t
-
-/-- the F28 trigger: an AppendEntries of a higher term reaches a node that is (still) leader -/
-def NoF28 (c : Cluster) : Label → Prop
-  | .appendEntries p t _ => ¬ ((c.proc p).node.role = .leader ∧ (c.proc p).node.term < t)
-  | .heartbeat l p => ¬ ((c.proc p).node.role = .leader ∧ (c.proc p).node.term < (c.proc l).node.term)
-  | _ => True
 
 theorem step_leaders_sub (c : Cluster) (l : Label) : ∀ x, x ∈ c.leaders → x ∈ (step c l).leaders := by
   intro x hx
@@ -394,7 +393,7 @@ theorem isL_step {c : Cluster} (l : Label) {a b : Nat} (h : c.isL a b) : (step c
   exact ⟨Q, step_leaders_sub c l _ hQ⟩
 
 theorem tinv_step {V : List Nat} {c : Cluster} (h : Inv V c) (hp : ∀ q, PubOK (c.proc q).node) (ht : TInv c)
-    (l : Label) (hs : Safe V c l) (hn : NoF28 c l) : TInv (step c l) := by
+    (l : Label) (hs : Safe V c l) : TInv (step c l) := by
   intro q l' t' hm
   have lift : PubsSub c.isL (c.proc q).node ((step c l).proc q).node → (step c l).isL l' t' := by
     intro hsub
@@ -412,12 +411,12 @@ theorem tinv_step {V : List Nat} {c : Cluster} (h : Inv V c) (hp : ∀ q, PubOK 
       obtain ⟨hq, hnode⟩ := hnode
       subst hq
       rw [hnode]
-      exact onAppendEntries_pubsSub _ _ t ld ((isLeaderAt_iff c ld t).mp hs) hn
+      exact onAppendEntries_pubsSub _ _ t ld ((isLeaderAt_iff c ld t).mp hs)
     | heartbeat ld p =>
       obtain ⟨hq, hrole, hnode⟩ := hnode
       subst hq
       rw [hnode]
-      exact onAppendEntries_pubsSub _ _ _ ld (h.r ld hrole) hn
+      exact onAppendEntries_pubsSub _ _ _ ld (h.r ld hrole)
     | timeout p =>
       rw [hnode.2]
       unfold becomeCandidate
